@@ -4,6 +4,7 @@
 //   transp1d gen rand SEED COUNT         random streams (see gen_rand)
 //   transp1d gen seq SEED COUNT          consecutive problems sharing the position vectors, different zero demands/supplies (TS lines)
 //   transp1d gen seqsmall FULL           (FULL=0: without 2 sources x 3 sinks) exhaustive small TS lines: pairs of zero-demand patterns on positions 0..2
+//   transp1d gen big SEED COUNT          LARGE supplies / demands: totals pass 2^31 and 2^32 (T1 and TO lines; see gen_big)
 //   transp1d gen obj SEED COUNT          call sequences on ONE object (TO lines);  gen objsmall FULL: exhaustive small ones
 //   transp1d run < cases
 // case line :  "TS n m k u_1..u_n v_1..v_m (bal s_1..s_n d_1..d_m)*k"   k problems on the same positions, handled one after the other in
@@ -16,8 +17,8 @@
 // result    :  "D d_1..d_m | S i j a;i j a;... | A a_1..a_n | O optcost"   ("DIED ..." when the worker process died on the case,
 //              "SKIPPED ..." for the rest of the input after 30 deaths / 3000 worker replacements)
 //              D = demands after the optional balanceDemand(); S = solve() in the returned order; A = assign();
-//              O = optimal cost found by an independent successive-shortest-path min-cost flow (only when n*m <= 64 and the
-//              total supply is <= 4000, "-" otherwise or when infeasible).  A part is "THROW <what>" when the call threw.
+//              O = optimal cost found by an independent successive-shortest-path min-cost flow (only when n*m <= 64, the amounts
+//              are <= 2^50 and the optimum is <= 2^62, "-" otherwise or when infeasible).  A part is "THROW <what>" when the call threw.
 #include "vh.hpp"
 #include <algorithm>
 #include <climits>
@@ -40,7 +41,7 @@ static bool mcf(const std::vector<ll> &u, const std::vector<ll> &v, const std::v
   for (int i = 0; i < n; ++i) { add(src, i, s[i], 0); tot += s[i]; }
   for (int j = 0; j < m; ++j) add(n + j, snk, d[j], 0);
   for (int i = 0; i < n; ++i) for (int j = 0; j < m; ++j) add(i, n + j, LLONG_MAX / 4, std::llabs(u[i] - v[j]));
-  cost = 0; ll flow = 0;
+  cost = 0; ll flow = 0; int augs = 0;
   while (flow < tot) {
     std::vector<ll> dist(N, LLONG_MAX / 2); std::vector<int> pe(N, -1); dist[src] = 0;
     for (int it = 0; it < N; ++it) { bool ch = false;
@@ -49,9 +50,22 @@ static bool mcf(const std::vector<ll> &u, const std::vector<ll> &v, const std::v
     if (dist[snk] >= LLONG_MAX / 2) return false;
     ll f = tot - flow; for (int x = snk; x != src; x = es[pe[x] ^ 1].to) f = std::min(f, es[pe[x]].cap);
     for (int x = snk; x != src; x = es[pe[x] ^ 1].to) { es[pe[x]].cap -= f; es[pe[x] ^ 1].cap += f; }
-    flow += f; cost += f * dist[snk];
+    flow += f;
+    __int128 c2 = (__int128)cost + (__int128)f * dist[snk];
+    if (c2 > LLONG_MAX / 2 || ++augs > 20000) return false;      // no optimum reported (cost beyond 2^62 / too many augmentations)
+    cost = (ll)c2;
   }
   return true;
+}
+// the optimum is computed when n*m <= 64, nothing is negative and the total supply is <= 4000 (all streams) or <= 2^50 (large amounts:
+// the flow algorithm augments by bottlenecks, its cost is accumulated in 128 bits)
+static bool oracle_opt(const std::vector<ll> &u, const std::vector<ll> &v, const std::vector<ll> &s, const std::vector<ll> &d2, ll &oc) {
+  ll ts = 0; for (ll y : s) { if (y < 0 || y > (1LL << 50)) return false; ts += y; if (ts > (1LL << 50)) return false; }
+  for (ll y : d2) if (y < 0 || y > (1LL << 50)) return false;
+  for (ll y : u) if (std::llabs(y) > (1LL << 40)) return false;
+  for (ll y : v) if (std::llabs(y) > (1LL << 40)) return false;
+  if ((ll)u.size() * (ll)v.size() > 64) return false;
+  return mcf(u, v, s, d2, oc);
 }
 
 static void emit(int bal, const std::vector<ll> &u, const std::vector<ll> &v, const std::vector<ll> &s, const std::vector<ll> &d) {
@@ -229,6 +243,68 @@ static void gen_objsmall(bool full) {
   }
 }
 
+// ---- big: LARGE supplies / demands (the amounts are `long long` areas in the rough legalizer): totals pass 2^31 and 2^32, with every
+// entry below 2^31 ("each entry fits an int, the total does not") or entries up to 2^40; few sources / sinks (1..6 x 1..6, so that the
+// independent min-cost flow applies; now and then up to 12 x 10), positions as in the other streams (ties, negative, up to 10^8);
+// slack, exact balance, deficit through balanceDemand() (missing amount small or itself >= 2^31), supply > demand without
+// balanceDemand (refused: compared with the model); T1 lines, and TO lines (calls on ONE object incl. refused call, balanceDemand, solve)
+static void gen_big(unsigned long long seed, long long count) {
+  SplitMix g(seed);
+  static const ll MAGS[] = {(1LL << 31) - 1, 1LL << 31, (1LL << 32) - 1, 1LL << 32, 1LL << 33, 1LL << 36, 1LL << 40};
+  static const ll EDGES[] = {(1LL << 31) - 1, 1LL << 31, (1LL << 31) + 1, (1LL << 32) - 1, 1LL << 32, (1LL << 32) + 1, (1LL << 32) + 5, 3LL << 31, 1LL << 33};
+  for (long long it = 0; it < count; ++it) {
+    int n, m;
+    if (g.coin(85)) { n = g.uni(1, 6); m = g.uni(1, 6); } else { n = g.uni(2, 12); m = g.uni(2, 10); }
+    ll range = g.coin(50) ? g.uni(1, 12) : g.coin(60) ? g.uni(20, 2000) : 100000000LL;
+    std::vector<ll> u(n), v(m), s(n), d(m);
+    ll base = g.coin(25) ? -range / 2 : 0;
+    for (auto &x : u) x = base + g.uni(0, range);
+    for (auto &x : v) x = base + g.uni(0, range);
+    if (g.coin(15)) for (int j = 1; j < m; ++j) if (g.coin(50)) v[j] = v[j - 1];
+    if (g.coin(10)) for (int i = 0; i < n; ++i) u[i] = v[g.uni(0, m - 1)];
+    int shape = (int)g.uni(0, 5);
+    ll E = MAGS[g.uni(0, 6)];
+    int zs = g.coin(30) ? (int)g.uni(1, 3) * 15 : 0, zd = g.coin(30) ? (int)g.uni(1, 3) * 15 : 0;
+    auto draw = [&](ll hi) -> ll {
+      switch (shape) {
+        case 0: return g.uni(1, hi);                                  // anywhere up to the magnitude
+        case 1: return hi - g.uni(0, 3);                              // at the magnitude
+        case 2: return g.coin(25) ? hi - g.uni(0, 1000) : g.uni(1, 9); // a few large among small ones
+        case 3: return g.uni(1LL << 29, (1LL << 31) - 1);              // every entry fits an int, the totals do not
+        case 4: return g.uni(hi / 2, hi);
+        default: return g.coin(50) ? g.uni(1, hi) : g.uni(1, 1LL << 20);
+      }
+    };
+    for (auto &x : s) x = g.coin(zs) ? 0 : draw(E);
+    for (auto &x : d) x = g.coin(zd) ? 0 : draw(g.coin(70) ? E : MAGS[g.uni(0, 6)]);
+    ll ts = 0, td = 0; for (ll x : s) ts += x; for (ll x : d) td += x;
+    if (g.coin(20)) {   // a total exactly at / next to 2^31, 2^32, ...: the last source takes what is missing
+      ll want = EDGES[g.uni(0, 8)];
+      if (ts - s[n - 1] < want) { s[n - 1] = want - (ts - s[n - 1]); ts = want; }
+    }
+    int mode = (int)g.uni(0, 10);   // 0-2 slack, 3-5 exact balance, 6-8 balanceDemand, 9 as drawn without balanceDemand (may be refused), 10 balanceDemand with nothing missing
+    int bal = 0;
+    if (mode <= 5) {
+      if (ts > td) { ll miss = ts - td + (mode <= 2 ? (g.coin(50) ? g.uni(0, 3) : g.uni(0, E)) : 0);
+        int parts = (int)g.uni(1, 3); for (int q = 0; q < parts && miss > 0; ++q) { ll a = q + 1 == parts ? miss : g.uni(1, miss); d[g.uni(0, m - 1)] += a; miss -= a; } }
+      else if (mode >= 3 && td > ts) { ll miss = td - ts;
+        int parts = (int)g.uni(1, 3); for (int q = 0; q < parts && miss > 0; ++q) { ll a = q + 1 == parts ? miss : g.uni(1, miss); s[g.uni(0, n - 1)] += a; miss -= a; } }
+    } else if (mode <= 8) {
+      bal = 1;
+      if (ts <= td) {     // make a deficit: small (below the number of sinks), or large
+        ll miss = g.coin(40) ? g.uni(1, 2 * m) : g.coin(50) ? g.uni(1, E) : (1LL << 31) + g.uni(0, E);
+        s[g.uni(0, n - 1)] += td - ts + miss;
+      }
+    } else if (mode == 10) bal = 1;
+    if (g.coin(25)) {
+      std::vector<int> ops;
+      if (g.coin(60)) ops = OBJ_PATTERNS[g.uni(0, (ll)OBJ_PATTERNS.size() - 1)];
+      else { int k = (int)g.uni(2, 5); for (int r = 0; r < k; ++r) ops.push_back((int)g.uni(0, 3)); }
+      emit_obj(u, v, s, d, ops);
+    } else emit(bal, u, v, s, d);
+  }
+}
+
 // one case -> one result line (without the trailing newline); *restart is set when the result of assign() does not even
 // have the shape of an assignment (wrong length): the heap may be damaged, the worker is replaced
 static std::string run_case(const std::string &line, bool *restart) {
@@ -253,9 +329,8 @@ static std::string run_case(const std::string &line, bool *restart) {
     auto a = q.assign(); out += " | A"; for (int y : a) { snprintf(buf, 64, " %d", y); out += buf; }
     if ((int)a.size() != n) *restart = true;
   } catch (std::exception &ex) { out += std::string(" | THROW ") + ex.what(); }
-  ll ts = 0; for (ll y : s) ts += y;
-  ll oc; bool neg = false; for (ll y : s) if (y < 0) neg = true; for (ll y : d2) if (y < 0) neg = true;
-  if (!neg && (ll)n * m <= 64 && ts <= 4000 && mcf(u, v, s, d2, oc)) { snprintf(buf, 64, " | O %lld", oc); out += buf; } else out += " | O -";
+  ll oc;
+  if (oracle_opt(u, v, s, d2, oc)) { snprintf(buf, 64, " | O %lld", oc); out += buf; } else out += " | O -";
   return out;
 }
 
@@ -275,9 +350,8 @@ static std::string part_A(Transportation1d &q, int n, bool *restart) {
   } catch (std::exception &ex) { return std::string(" | THROW ") + ex.what(); }
 }
 static std::string part_O(const std::vector<ll> &u, const std::vector<ll> &v, const std::vector<ll> &s, const std::vector<ll> &d2) {
-  ll ts = 0; for (ll y : s) ts += y; char buf[64];
-  ll oc; bool neg = false; for (ll y : s) if (y < 0) neg = true; for (ll y : d2) if (y < 0) neg = true;
-  if (!neg && (ll)u.size() * (ll)v.size() <= 64 && ts <= 4000 && mcf(u, v, s, d2, oc)) { snprintf(buf, 64, " | O %lld", oc); return buf; }
+  char buf[64]; ll oc;
+  if (oracle_opt(u, v, s, d2, oc)) { snprintf(buf, 64, " | O %lld", oc); return buf; }
   return " | O -";
 }
 
@@ -336,6 +410,7 @@ int main(int argc, char **argv) {
   if (mode == "gen" && argc > 2 && std::string(argv[2]) == "small") { gen_small(atoi(argv[3]), atoi(argv[4]), atoi(argv[5]), atoi(argv[6]), atoi(argv[7])); return 0; }
   if (mode == "gen" && argc > 2 && std::string(argv[2]) == "rand") { gen_rand(strtoull(argv[3], nullptr, 10), atoll(argv[4])); return 0; }
   if (mode == "gen" && argc > 2 && std::string(argv[2]) == "seq") { gen_seq(strtoull(argv[3], nullptr, 10), atoll(argv[4])); return 0; }
+  if (mode == "gen" && argc > 2 && std::string(argv[2]) == "big") { gen_big(strtoull(argv[3], nullptr, 10), atoll(argv[4])); return 0; }
   if (mode == "gen" && argc > 2 && std::string(argv[2]) == "seqsmall") { gen_seqsmall(argc > 3 && atoi(argv[3])); return 0; }
   if (mode == "gen" && argc > 2 && std::string(argv[2]) == "obj") { gen_obj(strtoull(argv[3], nullptr, 10), atoll(argv[4])); return 0; }
   if (mode == "gen" && argc > 2 && std::string(argv[2]) == "objsmall") { gen_objsmall(argc > 3 && atoi(argv[3])); return 0; }
